@@ -154,7 +154,7 @@ impl ScriptProc {
     }
 }
 
-fn msg_key(prefix: Vec<u64>, msg: &Message) -> Vec<u64> {
+pub fn msg_key(prefix: Vec<u64>, msg: &Message) -> Vec<u64> {
     let mut key = prefix;
     key.extend(msg.tip.as_bytes().iter().map(|b| *b as u64));
     key.push(KEY_SEP);
